@@ -211,6 +211,8 @@ def run_query(q, logdir):
     used are reported in the evidence.  A loop that still fails is a machinery fault (BROKEN), never a verdict."""
     os.makedirs(logdir, exist_ok=True)
     t0 = time.time()
+    cap = os.environ.get('VERIF_TIMEOUT_CAP_S')          # optional cap of the per-query time-outs (trial runs)
+    if cap: q.timeout = min(q.timeout, int(cap))
     try:
         uws = getattr(q, 'uws_override', None) or resolve_unwindset(q)
     except Exception as e:
